@@ -310,8 +310,9 @@ Definition py_is_event_type (e : pyetarg) : bool := match e with EtObj _ => true
 Definition py_et (e : pyetarg) : etype := match e with EtObj t => t | _ => ETData end.
 Definition py_is_statistic (s : pystat) : bool := match s with StatObj _ => true | NotStat => false end.
 Definition py_stat_id (s : pystat) : nat := match s with StatObj n => n | NotStat => O end.
-(* s1; s2 in a constructor *)
+(* s1; s2 in a constructor / in a method of the model *)
 Definition c_then (r : cres) (k : cobj -> cres) : cres := match r with COk c => k c | CExn e c => CExn e c end.
+Definition d_then (r : dres) (k : registry -> dres) : dres := match r with DOk d => k d | DExn e d => DExn e d end.
 (* simulator.add_listener(et, self) / producer.add_listener(et, self) *)
 Definition py_sim_add_listener (e : etype) (l : nat) (c : cobj) : cobj :=
   mkCo (add_sub e l (co_sim c)) (co_prod c) (co_dict c) (co_types c) (co_key c) (co_plain c).
@@ -475,12 +476,25 @@ class V:
         self.ty, self.tx, self.guards = ty, tx, list(guards)
 
 
+class Frame:
+    """the variables of the method being translated, or of a helper inlined into it"""
+
+    def __init__(self, vars_, O, file, ret=None, fn=None):
+        self.vars, self.O, self.file, self.ret, self.fn = vars_, O, file, ret, fn
+
+
 class Env:
-    def __init__(self, C, O, kind, file):
-        self.C, self.O, self.kind, self.file = C, O, kind, file
-        self.vars = {}
+    def __init__(self, C, O, kind, file, mode):
+        self.C, self.kind, self.mode = C, kind, mode
+        self.frame = Frame({}, O, file)
+        self.stack = []           # helpers being inlined (no recursion)
+        self.inlined = []         # records of the helpers whose text went into this definition
         self.n = 0
         self.locals_n = {}
+
+    vars = property(lambda self: self.frame.vars)
+    O = property(lambda self: self.frame.O)
+    file = property(lambda self: self.frame.file)
 
     def fresh(self, stem):
         self.n += 1
@@ -491,6 +505,15 @@ class Env:
         return f"v_{name}_{self.locals_n[name]}"
 
 
+def contains_return(stmts):
+    for s in stmts:
+        if isinstance(s, ast.Return):
+            return True
+        if isinstance(s, ast.If) and (contains_return(s.body) or contains_return(s.orelse)):
+            return True
+    return False
+
+
 # ---------------------------------------------------------------------------------------------- translation
 class Translator:
     def __init__(self, src: Source):
@@ -499,6 +522,9 @@ class Translator:
         self.translated = []      # records
         self.done = {}            # (C, O, m) -> name | Unsupported
         self.busy = set()
+        self.funcs = {}           # file key -> {name: FunctionDef} module-level functions
+        for key, tree in src.tree.items():
+            self.funcs[key] = {n.name: n for n in tree.body if isinstance(n, ast.FunctionDef)}
 
     def fail(self, env_or_file, node, what):
         file = env_or_file.file if isinstance(env_or_file, Env) else env_or_file
@@ -559,11 +585,20 @@ class Translator:
         self.translated.append(rec)
         return name
 
-    def record(self, C, O, m, name, file, fn):
+    def seg_record(self, file, fn):
         a, b = fn.lineno, fn.end_lineno
         seg = self.src.lines(file, a, b)
-        return {"class": O, "concrete_class": C, "method": m, "definition": name, "file": REL[file], "lines": [a, b],
-                "sha1": hashlib.sha1(seg.encode("utf-8")).hexdigest()}
+        return {"file": REL[file], "lines": [a, b], "sha1": hashlib.sha1(seg.encode("utf-8")).hexdigest()}
+
+    def record(self, C, O, m, name, file, fn, env=None):
+        r = {"class": O, "concrete_class": C, "method": m, "definition": name, **self.seg_record(file, fn)}
+        if env is not None and env.inlined:
+            r["inlined_helpers"] = env.inlined
+            h = hashlib.sha1(r["sha1"].encode())
+            for i in env.inlined:
+                h.update(i["sha1"].encode())
+            r["sha1"] = h.hexdigest()
+        return r
 
     def plain_args(self, fn, file, n, what):
         a = fn.args
@@ -578,6 +613,429 @@ class Translator:
             raise Unsupported(file, fn, f"{what} takes {len(ps)} parameter(s), the model's has {n}")
         return ps
 
+    # ====================================================================== the statement engine (all three modes)
+    # A mode (self.MODES[env.mode]) says how a state is threaded: what the final state reads as (`ok`), how a statement
+    # whose result may be an exception is followed by the rest (`bind`), what `raise` is.
+    #   pub   object x : gst           ok: x         bind: do x' <- t ;; rest        raise: py_raise x
+    #   ctor  tables c : cobj          ok: COk c     bind: c_then (t) (fun c' => ..)  raise: CExn K c
+    #   dict  dictionary d : registry  ok: DOk d     bind: d_then (t) (fun d' => ..)  raise: DExn K d
+    def ok(self, env, st):
+        return {"pub": st, "ctor": f"COk {st}", "dict": f"DOk {st}"}[env.mode]
+
+    def bind(self, env, tx, var, rest):
+        if env.mode == "pub":
+            return f"do {var} <- {tx} ;;\n{rest}"
+        return f"{'c_then' if env.mode == 'ctor' else 'd_then'} ({tx}) (fun {var} =>\n{rest})"
+
+    def stvar(self, env):
+        return env.fresh({"pub": "x", "ctor": "c", "dict": "d"}[env.mode])
+
+    def raise_(self, s, env, st):
+        nm = self.check_raise(s, env)
+        if env.mode == "pub":
+            return f"py_raise {st}"
+        if nm not in RAISES:
+            self.fail(env, s, f"raise {nm} in a constructor / a method of the model")
+        return f"{'CExn' if env.mode == 'ctor' else 'DExn'} {RAISES[nm]} {st}"
+
+    def guarded(self, env, guards, st, tx):
+        """evaluating the sub-expressions of a statement may raise (only in publishing methods)"""
+        for g in reversed(guards):
+            tx = f"if negb {g} then py_raise {st} else\n{tx}"
+        return tx
+
+    @staticmethod
+    def always_raises(stmts):
+        return bool(stmts) and isinstance(stmts[-1], ast.Raise)
+
+    def check_raise(self, s, env):
+        e = s.exc
+        if s.cause is not None or e is None:
+            self.fail(env, s, "raise without an exception / with a cause")
+        nm = e.func.id if isinstance(e, ast.Call) and isinstance(e.func, ast.Name) else (e.id if isinstance(e, ast.Name) else None)
+        if nm not in PUB_RAISES:
+            self.fail(env, s, f"raise of `{ast.unparse(e)[:60]}`")
+        # the message is evaluated but has no effect: names / attributes / literals in f-strings and concatenations only
+        if isinstance(e, ast.Call):
+            if e.keywords:
+                self.fail(env, s, "keyword arguments of an exception")
+            for a in e.args:
+                self.message(a, env)
+        return nm
+
+    def message(self, e, env):
+        """a string built for an exception / the log: no effect, as long as it only formats names, attributes, literals"""
+        if isinstance(e, ast.Constant) or isinstance(e, ast.Name):
+            return
+        if isinstance(e, ast.Attribute):
+            return self.message(e.value, env)
+        if isinstance(e, ast.JoinedStr):
+            for v in e.values:
+                if isinstance(v, ast.FormattedValue):
+                    self.message(v.value, env)
+                    if v.format_spec is not None:
+                        self.message(v.format_spec, env)
+            return
+        if isinstance(e, ast.BinOp) and isinstance(e.op, (ast.Add, ast.Mod)):
+            self.message(e.left, env)
+            return self.message(e.right, env)
+        if isinstance(e, ast.Tuple):
+            for v in e.elts:
+                self.message(v, env)
+            return
+        if isinstance(e, ast.Call) and isinstance(e.func, ast.Name) and e.func.id in ("str", "repr", "type") and not e.keywords:
+            for a in e.args:
+                self.message(a, env)
+            return
+        if isinstance(e, ast.Call) and isinstance(e.func, ast.Attribute) and e.func.attr == "format" and not e.keywords:
+            self.message(e.func.value, env)
+            for a in e.args:
+                self.message(a, env)
+            return
+        self.fail(env, e, f"text of a message: `{ast.unparse(e)[:60]}`")
+
+    def is_message(self, e):
+        return isinstance(e, ast.JoinedStr) or (isinstance(e, ast.Constant) and isinstance(e.value, str)) or \
+            (isinstance(e, ast.BinOp) and isinstance(e.op, (ast.Add, ast.Mod)) and (self.is_message(e.left) or self.is_message(e.right)))
+
+    def seq(self, stmts, env, st, k=None):
+        """the statements from state `st` on; k: what follows when they complete normally (None: the method ends).
+        Early `return`s are honoured by handing the rest of a block to both branches of an `if` that may return;
+        otherwise the branches are joined and the rest follows once."""
+        def done(s1):
+            return k(s1) if k else self.ok(env, s1)
+        if not stmts:
+            return done(st)
+        s, rest = stmts[0], stmts[1:]
+        cont = (lambda s1: self.seq(rest, env, s1, k)) if rest else k
+        if isinstance(s, ast.Pass):
+            return self.seq(rest, env, st, k)
+        if isinstance(s, ast.Expr) and isinstance(s.value, ast.Constant) and isinstance(s.value.value, str):
+            return self.seq(rest, env, st, k)          # a string used as a comment
+        if isinstance(s, ast.Raise):
+            if rest:
+                self.fail(env, rest[0], "statement after raise")
+            return self.raise_(s, env, st)
+        if isinstance(s, ast.Return):
+            if rest:
+                self.fail(env, rest[0], "statement after return")
+            if env.frame.ret is not None:
+                return env.frame.ret(st, s.value, s)
+            if s.value is not None and not (isinstance(s.value, ast.Constant) and s.value.value is None):
+                self.fail(env, s, f"value returned by the method: `{ast.unparse(s.value)[:60]}`")
+            return self.ok(env, st)
+        if isinstance(s, ast.If):
+            return self.if_(s, rest, env, st, k, cont)
+        if isinstance(s, (ast.Assign, ast.AnnAssign)):
+            tg = s.targets[0] if isinstance(s, ast.Assign) and len(s.targets) == 1 else getattr(s, "target", None)
+            if isinstance(tg, ast.Name) and s.value is not None:
+                return self.assign_local(s, tg.id, env, st, rest, k)
+        if isinstance(s, ast.Expr) and isinstance(s.value, ast.Call):
+            h = self.helper(s.value, env, st)
+            if h:
+                return self.inline(h, s.value, env, st, lambda s1, _v: (cont(s1) if cont else self.ok(env, s1)))
+            if self.is_log_call(s.value, env):
+                return self.seq(rest, env, st, k)
+        kind, tx = self.simple(s, env, st)
+        if kind == "none":
+            return self.seq(rest, env, st, k)
+        v = self.stvar(env)
+        if kind == "pure":
+            return f"let {v} := {tx} in\n{(cont(v) if cont else self.ok(env, v))}"
+        if cont is None:
+            return tx
+        after = cont(v)
+        if after.strip() == self.ok(env, v):       # nothing follows: `do x' <- t ;; x'` is t
+            return tx
+        return self.bind(env, tx, v, after)
+
+    def is_log_call(self, call, env):
+        f = call.func
+        if isinstance(f, ast.Attribute) and isinstance(f.value, ast.Name) and f.value.id == "logger" \
+                and f.attr in ("debug", "info", "warning", "error", "critical", "exception") and not call.keywords:
+            for a in call.args:
+                self.message(a, env)
+            return True
+        return False
+
+    def if_(self, s, rest, env, st, k, cont):
+        test = s.test
+        # `if helper(..):` -- the helper's returns decide
+        neg = False
+        t0 = test
+        while isinstance(t0, ast.UnaryOp) and isinstance(t0.op, ast.Not):
+            neg, t0 = not neg, t0.operand
+        if isinstance(t0, ast.Call):
+            h = self.helper(t0, env, st)
+            if h and not h["simple"]:
+                def after(s1, v, neg=neg):
+                    if v is None or v.ty != "Bool":
+                        self.fail(env, s, "a helper used as a condition must return a truth value on every path")
+                    c = f"(negb {v.tx})" if neg else v.tx
+                    return self.guarded(env, v.guards, s1,
+                                        f"if {c} then\n{ind(self.seq(s.body, env, s1, cont))}\nelse\n{ind(self.seq(s.orelse, env, s1, cont))}")
+                return self.inline(h, t0, env, st, after)
+        c = self.cond(test, env, st)
+        early = contains_return(s.body) or contains_return(s.orelse) or self.calls_returning_helper(s, env)
+        if rest and not early:
+            if not s.orelse and self.always_raises(s.body) and len(s.body) == 1:
+                tx = f"if {c.tx} then\n{ind(self.seq(s.body, env, st, None))}\nelse\n{ind(cont(st))}"
+                return self.guarded(env, c.guards, st, tx)
+            a = self.seq(s.body, env, st, None)
+            b = self.seq(s.orelse, env, st, None)
+            v = self.stvar(env)
+            return self.guarded(env, c.guards, st, self.bind(env, f"(if {c.tx} then\n{ind(a)}\nelse\n{ind(b)})" if env.mode == "pub"
+                                                             else f"if {c.tx} then\n{ind(a)}\nelse\n{ind(b)}", v, cont(v)))
+        a = self.seq(s.body, env, st, cont)
+        b = self.seq(s.orelse, env, st, cont)
+        return self.guarded(env, c.guards, st, f"if {c.tx} then\n{ind(a)}\nelse\n{ind(b)}")
+
+    def calls_returning_helper(self, s, env):
+        return False
+
+    def assign_local(self, s, name, env, st, rest, k):
+        if not rest and k is None and env.frame.ret is None:
+            self.fail(env, s, "assignment as the last statement")
+        cont = (lambda s1: self.seq(rest, env, s1, k))
+        if isinstance(s.value, ast.Call):
+            h = self.helper(s.value, env, st)
+            if h and not h["simple"]:
+                def after(s1, v):
+                    if v is None:
+                        self.fail(env, s, "the helper does not return a value on every path")
+                    return self.bind_local(name, v, env, s1, cont)
+                return self.inline(h, s.value, env, st, after)
+        if self.is_message(s.value):
+            self.message(s.value, env)
+            env.vars[name] = V("Str", "tt")
+            return cont(st)
+        v = self.ex(s.value, env, st)
+        return self.guarded(env, v.guards, st, self.bind_local(name, V(v.ty, v.tx), env, st, cont))
+
+    def bind_local(self, name, v, env, st, cont):
+        nm = env.local(name)
+        if v.ty == "PVal":                     # a query method was called: it may have raised
+            env.vars[name] = V("PVal", nm)
+            return f"let {nm} := {v.tx} in\npy_eval {nm} {st} (\n{cont(st)})"
+        if v.ty in ("Self", "None", "Str"):
+            env.vars[name] = v
+            return cont(st)
+        env.vars[name] = V(v.ty, nm)
+        return f"let {nm} := {v.tx} in\n{cont(st)}"
+
+    # -- helpers: private functions / methods that are not part of the translated interface are inlined
+    def helper(self, call, env, st):
+        """{fn, file, O, self_v, params bound} when the call is one to a helper defined in the module under translation"""
+        f = call.func
+        fn = owner = None
+        self_v = None
+        file = env.file
+        args = list(call.args)
+        if isinstance(f, ast.Name):
+            fn = self.funcs.get(file, {}).get(f.id)
+            if fn is None:
+                return None
+        elif isinstance(f, ast.Attribute):
+            try:
+                how, O, m, args = self.resolve_call(call, env)
+            except Unsupported:
+                return None
+            if how not in ("self", "super", "parent") or O is None or O not in self.src.classes:
+                return None
+            ofile = self.src.classes[O][0]
+            if ofile != file or O in PLAIN or O in ("EventProducer", "EventListener"):
+                return None
+            if m in PUB_METHODS or m in CTOR_METHODS or (O, m) in QUERIES or m in ("simulator", "key"):
+                return None
+            if O in ("DSOLModel", "Simulator") and m in ("output_statistics", "add_output_statistic", "get_output_statistic",
+                                                         "initialize", "construct_model"):
+                return None
+            fns = self.src.methods(O).get(m)
+            if not fns or len(fns) != 1 or isinstance(fns[0], ast.AsyncFunctionDef):
+                return None
+            fn, owner = fns[0], O
+            self_v = V("Self", "self")
+        else:
+            return None
+        a = fn.args
+        decos = [ast.unparse(d) for d in fn.decorator_list]
+        static = decos == ["staticmethod"]
+        if (decos and not static) or a.vararg or a.kwarg or a.posonlyargs or a.kwonlyargs:
+            raise Unsupported(file, fn, f"helper {fn.name}: decorators / *args / **kwargs / keyword-only parameters are not inlined "
+                                        f"(called at line {call.lineno})")
+        if fn in env.stack:
+            raise Unsupported(file, call, f"recursive helper {fn.name}")
+        params = [x.arg for x in a.args]
+        if owner is not None and not static:
+            if not params or params[0] != "self":
+                raise Unsupported(file, fn, f"helper method {fn.name}: first parameter must be self")
+            params = params[1:]
+        body = strip_doc(fn.body)
+        simple = len(body) == 1 and isinstance(body[0], ast.Return) and body[0].value is not None
+        return {"fn": fn, "file": file, "O": owner or env.O, "self_v": None if static else self_v, "params": params,
+                "args": args, "body": body, "simple": simple, "is_method": owner is not None and not static}
+
+    def bind_args(self, h, call, env, st):
+        fn, params = h["fn"], h["params"]
+        a = fn.args
+        defaults = dict(zip(reversed(params), reversed(a.defaults)))
+        given = {}
+        if len(h["args"]) > len(params):
+            self.fail(env, call, f"helper {fn.name} called with {len(h['args'])} arguments")
+        for p, e in zip(params, h["args"]):
+            given[p] = e
+        for kw in call.keywords:
+            if kw.arg is None or kw.arg not in params or kw.arg in given:
+                self.fail(env, call, f"keyword argument `{kw.arg}` of helper {fn.name}")
+            given[kw.arg] = kw.value
+        vals, guards = {}, []
+        for p in params:                         # arguments are evaluated left to right, in the caller
+            if p in given:
+                v = self.arg_value(given[p], env, st)
+            elif p in defaults and isinstance(defaults[p], ast.Constant):
+                v = self.arg_value(defaults[p], env, st)
+            else:
+                self.fail(env, call, f"helper {fn.name}: no argument for parameter `{p}`")
+            guards += v.guards
+            vals[p] = V(v.ty, v.tx)
+        if h["self_v"] is not None:
+            vals["self"] = h["self_v"]
+        return vals, guards
+
+    def arg_value(self, e, env, st):
+        if self.is_message(e):
+            self.message(e, env)
+            return V("Str", "tt")
+        return self.ex(e, env, st)
+
+    def inline(self, h, call, env, st, after):
+        """the body of helper h at the call site; after(state, value or None): what follows the call"""
+        vals, guards = self.bind_args(h, call, env, st)
+        caller = env.frame
+        fn = h["fn"]
+        rec = {"helper": (h["O"] + "." if h["is_method"] else "") + fn.name, **self.seg_record(h["file"], fn)}
+        if rec not in env.inlined:
+            env.inlined.append(rec)
+
+        def ret(s1, value_node, at):
+            callee, stack = env.frame, list(env.stack)
+            v = None
+            if value_node is not None and not (isinstance(value_node, ast.Constant) and value_node.value is None):
+                v = self.ex(value_node, env, s1)          # evaluated in the helper's scope
+            env.frame = caller
+            env.stack = [f for f in stack if f is not fn]
+            try:
+                if v is not None and v.guards:
+                    return self.guarded(env, v.guards, s1, after(s1, V(v.ty, v.tx)))
+                return after(s1, v)
+            finally:
+                env.frame, env.stack = callee, stack
+
+        env.frame = Frame(vals, h["O"], h["file"], ret=ret, fn=fn)
+        env.stack.append(fn)
+        try:
+            # falling off the end returns None
+            tx = self.seq(h["body"], env, st, lambda s1: ret(s1, None, fn))
+        finally:
+            env.frame = caller
+            env.stack.remove(fn)
+        return self.guarded(env, guards, st, tx)
+
+    def inline_value(self, h, call, env, st):
+        """a helper that is one `return <expression>`: the expression, in the helper's scope"""
+        vals, guards = self.bind_args(h, call, env, st)
+        caller = env.frame
+        fn = h["fn"]
+        rec = {"helper": (h["O"] + "." if h["is_method"] else "") + fn.name, **self.seg_record(h["file"], fn)}
+        if rec not in env.inlined:
+            env.inlined.append(rec)
+        env.frame = Frame(vals, h["O"], h["file"], ret=None, fn=fn)
+        env.stack.append(fn)
+        try:
+            v = self.ex(h["body"][0].value, env, st)
+        finally:
+            env.frame = caller
+            env.stack.remove(fn)
+        return V(v.ty, v.tx, guards + v.guards)
+
+    # -- dispatch to the mode
+    def simple(self, s, env, st):
+        return {"pub": self.pub_simple, "ctor": self.cstmt, "dict": self.dstmt}[env.mode](s, env, st)
+
+    def ex(self, e, env, st) -> V:
+        if isinstance(e, ast.IfExp):
+            c = self.cond(e.test, env, st)
+            a, b = self.ex(e.body, env, st), self.ex(e.orelse, env, st)
+            if a.ty != b.ty or a.guards or b.guards:
+                self.fail(env, e, f"conditional expression `{ast.unparse(e)[:60]}` ({a.ty} / {b.ty})")
+            return V(a.ty, f"(if {c.tx} then {a.tx} else {b.tx})", c.guards)
+        if isinstance(e, ast.Call):
+            h = self.helper(e, env, st)
+            if h:
+                if not h["simple"]:
+                    self.fail(env, e, f"call of the helper {h['fn'].name} inside an expression (only a helper that is one "
+                                      "`return <expression>` can be used there)")
+                return self.inline_value(h, e, env, st)
+        if isinstance(e, ast.Name) and e.id in env.vars:
+            return env.vars[e.id]
+        if isinstance(e, ast.Constant) and e.value is None:
+            return V("None", "tt")
+        return {"pub": self.pub_ex, "ctor": self.cex, "dict": self.dex}[env.mode](e, env, st)
+
+    def same_isinstance(self, values, negated):
+        """isinstance(e, A) or isinstance(e, B) [or: not .. and not ..] on one expression: isinstance(e, (A, B))"""
+        subj, classes = None, []
+        for v in values:
+            if negated:
+                if not (isinstance(v, ast.UnaryOp) and isinstance(v.op, ast.Not)):
+                    return None
+                v = v.operand
+            if not (isinstance(v, ast.Call) and isinstance(v.func, ast.Name) and v.func.id == "isinstance" and len(v.args) == 2
+                    and not v.keywords):
+                return None
+            if subj is None:
+                subj = ast.unparse(v.args[0])
+            elif ast.unparse(v.args[0]) != subj:
+                return None
+            t = v.args[1]
+            classes += list(t.elts) if isinstance(t, ast.Tuple) else [t]
+        first = values[0].operand if negated else values[0]
+        merged = ast.Call(func=first.func, args=[first.args[0], ast.Tuple(elts=classes, ctx=ast.Load())], keywords=[])
+        return ast.copy_location(merged, first)
+
+    def cond(self, e, env, st) -> V:
+        if isinstance(e, ast.UnaryOp) and isinstance(e.op, ast.Not):
+            c = self.cond(e.operand, env, st)
+            return V("Bool", f"(negb {c.tx})", c.guards)
+        if isinstance(e, ast.BoolOp):
+            if len(e.values) > 1:
+                m = self.same_isinstance(e.values, isinstance(e.op, ast.And))
+                if m is not None and isinstance(e.op, ast.Or):
+                    return self.cond(m, env, st)
+                if m is not None:
+                    c = self.cond(m, env, st)
+                    return V("Bool", f"(negb {c.tx})", c.guards)
+            cs = [self.cond(v, env, st) for v in e.values]
+            if any(c.guards for c in cs[1:]):
+                self.fail(env, e, "an operand of and / or that may raise")
+            op = " && " if isinstance(e.op, ast.And) else " || "
+            return V("Bool", "(" + op.join(c.tx for c in cs) + ")", cs[0].guards)
+        v = self.ex(e, env, st)
+        if v.ty != "Bool":
+            self.fail(env, e, f"truth value of `{ast.unparse(e)[:60]}` ({v.ty})")
+        return v
+
+    def names_of_classes(self, t, env, e):
+        names = sorted({n.id for n in t.elts}) if isinstance(t, ast.Tuple) and all(isinstance(n, ast.Name) for n in t.elts) \
+            else ([t.id] if isinstance(t, ast.Name) else None)
+        if not names:
+            self.fail(env, e, f"isinstance class `{ast.unparse(t)}`")
+        return names
+
+    def is_selfname(self, b, env):
+        return isinstance(b, ast.Name) and (b.id == "self" and "self" not in env.vars or
+                                            (b.id in env.vars and env.vars[b.id].ty == "Self"))
+
     # ====================================================================== publishing methods
     def pub_method(self, C, O, m):
         file, fn = self.fn_node(O, m)
@@ -588,83 +1046,28 @@ class Translator:
         if m == "end_observations" and kind != "KPersistent":
             raise Unsupported(file, fn, "end_observations outside the time-stamped statistic")
         ps = self.plain_args(fn, file, len(sig), f"{O}.{m}")
-        env = Env(C, O, kind, file)
+        env = Env(C, O, kind, file, "pub")
         for p, t in zip(ps, sig):
             env.vars[p] = V(t, f"p_{p}")
         name = self.def_name(C, O, m)
         body = strip_doc(fn.body)
         if not body:
             raise Unsupported(file, fn, "empty body")
-        tx = self.pseq(body, env, "x")
+        tx = self.seq(body, env, "x")
         S = STATE[kind][0]
         params = "".join(f" (p_{p} : {GTYPE[t]})" for p, t in zip(ps, sig))
         head = f"(* {O}.{m} for an object of class {C}  -- {REL[file]} lines {fn.lineno}-{fn.end_lineno} *)\n"
         text = head + f"Definition {name} (E : genv N {S}) (x : gst N {S}){params} : gst N {S} :=\n" + ind(tx) + "."
-        return name, text, self.record(C, O, m, name, file, fn)
-
-    def pseq(self, stmts, env, x):
-        """the statements, from object x on; Gallina text of the resulting object"""
-        if not stmts:
-            return x
-        s, rest = stmts[0], stmts[1:]
-        if isinstance(s, ast.Pass):
-            return self.pseq(rest, env, x) if rest else x
-        if isinstance(s, ast.Raise):
-            self.check_raise(s, env)
-            if rest:
-                self.fail(env, rest[0], "statement after raise")
-            return f"py_raise {x}"
-        if isinstance(s, ast.If):
-            c = self.cond(s.test, env, x)
-            guard_only = (not s.orelse) and self.always_raises(s.body)
-            if guard_only and rest:
-                return self.guarded(c.guards, x, f"if {c.tx} then\n{ind(self.pseq(s.body, env, x))}\nelse\n{ind(self.pseq(rest, env, x))}")
-            a = self.pseq(s.body, env, x)
-            b = self.pseq(s.orelse, env, x) if s.orelse else x
-            both = f"if {c.tx} then\n{ind(a)}\nelse\n{ind(b)}"
-            if not rest:
-                return self.guarded(c.guards, x, both)
-            x1 = env.fresh("x")
-            return self.guarded(c.guards, x, f"do {x1} <- ({both}) ;;\n{self.pseq(rest, env, x1)}")
-        if isinstance(s, ast.Assign) and len(s.targets) == 1 and isinstance(s.targets[0], ast.Name):
-            v = self.ex(s.value, env, x)
-            nm = env.local(s.targets[0].id)
-            if not rest:
-                self.fail(env, s, "assignment as the last statement")
-            if v.ty == "PVal":
-                env.vars[s.targets[0].id] = V("PVal", nm)
-                return self.guarded(v.guards, x, f"let {nm} := {v.tx} in\npy_eval {nm} {x} (\n{self.pseq(rest, env, x)})")
-            env.vars[s.targets[0].id] = V(v.ty, nm)
-            return self.guarded(v.guards, x, f"let {nm} := {v.tx} in\n{self.pseq(rest, env, x)}")
-        tx = self.simple(s, env, x)
-        if not rest:
-            return tx
-        x1 = env.fresh("x")
-        return f"do {x1} <- {tx} ;;\n{self.pseq(rest, env, x1)}"
-
-    @staticmethod
-    def guarded(guards, x, tx):
-        for g in reversed(guards):
-            tx = f"if negb {g} then py_raise {x} else\n{tx}"
-        return tx
-
-    def always_raises(self, stmts):
-        return bool(stmts) and isinstance(stmts[-1], ast.Raise)
-
-    def check_raise(self, s, env):
-        e = s.exc
-        if s.cause is not None or e is None:
-            self.fail(env, s, "raise without an exception / with a cause")
-        nm = e.func.id if isinstance(e, ast.Call) and isinstance(e.func, ast.Name) else (e.id if isinstance(e, ast.Name) else None)
-        if nm not in PUB_RAISES:
-            self.fail(env, s, f"raise of `{ast.unparse(e)[:60]}`")
-        return nm
+        return name, text, self.record(C, O, m, name, file, fn, env)
 
     # -- simple statements of a publishing method: text of the object afterwards
-    def simple(self, s, env, x):
+    def pub_simple(self, s, env, x):
+        return "res", self.pub_stmt(s, env, x)
+
+    def pub_stmt(self, s, env, x):
         if isinstance(s, ast.Assign) and len(s.targets) == 1 and isinstance(s.targets[0], ast.Attribute):
             t = s.targets[0]
-            if isinstance(t.value, ast.Name) and t.value.id == "self" and t.attr in TS_WRITE and env.kind == "KPersistent":
+            if self.is_selfname(t.value, env) and t.attr in TS_WRITE and env.kind == "KPersistent":
                 ty, tmpl = TS_WRITE[t.attr]
                 v = self.ex(s.value, env, x)
                 if v.ty != ty or v.guards:
@@ -696,8 +1099,8 @@ class Translator:
             guards += pv.guards
             ptx = self.as_pval(pv, env, args[-1])
             if m == "fire":
-                return self.guarded(guards, x, f"py_fire {inj} E {j} {ptx} {x}")
-            return self.guarded(guards, x, f"py_fire_timed {inj} E {tt} {j} {ptx} {x}")
+                return self.guarded(env, guards, x, f"py_fire {inj} E {j} {ptx} {x}")
+            return self.guarded(env, guards, x, f"py_fire_timed {inj} E {tt} {j} {ptx} {x}")
         if O in PLAIN and m in ("register", "initialize"):
             if PLAIN[O] != kind:
                 self.fail(env, call, f"{O}.{m} on an object whose ordinary statistic is not {O}")
@@ -711,7 +1114,7 @@ class Translator:
                 self.fail(env, call, f"{O}.register with {len(args)} arguments")
             vs = [self.coerce(self.ex(a, env, x), t, env, a) for a, t in zip(args, sig)]
             guards = [g for v in vs for g in v.guards]
-            return self.guarded(guards, x, f"py_plain ({PLAIN_REGISTER[O]} {st} {' '.join(v.tx for v in vs)}) {x}")
+            return self.guarded(env, guards, x, f"py_plain ({PLAIN_REGISTER[O]} {st} {' '.join(v.tx for v in vs)}) {x}")
         if m in PUB_METHODS and (O not in PLAIN or m == "end_observations") and O in self.src.classes \
                 and self.src.classes[O][0] == "statistics":
             name = self.define(env.C, O, m, at=call, file=env.file)
@@ -720,7 +1123,7 @@ class Translator:
                 self.fail(env, call, f"{O}.{m} called with {len(args)} argument(s)")
             vs = [self.coerce(self.ex(a, env, x), t, env, a) for a, t in zip(args, sig)]
             guards = [g for v in vs for g in v.guards]
-            return self.guarded(guards, x, " ".join([name, "E", x] + [v.tx for v in vs]))
+            return self.guarded(env, guards, x, " ".join([name, "E", x] + [v.tx for v in vs]))
         self.fail(env, call, f"call of {O}.{m}" if O else f"call `{ast.unparse(call)[:70]}`")
 
     def resolve_call(self, call, env):
@@ -730,7 +1133,7 @@ class Translator:
             self.fail(env, call, f"call `{ast.unparse(call)[:70]}`")
         m = f.attr
         b = f.value
-        if isinstance(b, ast.Name) and b.id == "self":
+        if self.is_selfname(b, env):
             O = self.src.find(env.C, m)
             if O is None:
                 self.fail(env, call, f"self.{m}: no such method in the classes {env.C} extends")
@@ -743,7 +1146,7 @@ class Translator:
         if isinstance(b, ast.Name) and b.id in self.src.classes:
             if b.id not in self.src.mro(env.C):
                 self.fail(env, call, f"{b.id}.{m}(self, ..): {b.id} is not a base of {env.C}")
-            if not call.args or not (isinstance(call.args[0], ast.Name) and call.args[0].id == "self"):
+            if not call.args or not self.is_selfname(call.args[0], env):
                 self.fail(env, call, f"{b.id}.{m}(..) without self as first argument")
             O = self.src.find(b.id, m)
             if O is None:
@@ -778,12 +1181,10 @@ class Translator:
         self.fail(env, node, f"`{ast.unparse(node)[:60]}` ({v.ty}) where the model expects {want}")
 
     # -- expressions of a publishing method
-    def ex(self, e, env, x) -> V:
+    def pub_ex(self, e, env, x) -> V:
         if isinstance(e, ast.Name):
             if e.id == "self":
                 return V("Self", "self")
-            if e.id in env.vars:
-                return env.vars[e.id]
             self.fail(env, e, f"name `{e.id}`")
         if isinstance(e, ast.Constant):
             if e.value is True:
@@ -806,7 +1207,7 @@ class Translator:
                 self.fail(env, e, f"attribute `{e.attr}` of an event")
             if isinstance(b, ast.Name) and (b.id, e.attr) in ETYPES:
                 return V("EType", ETYPES[(b.id, e.attr)])
-            if isinstance(b, ast.Name) and b.id == "self":
+            if self.is_selfname(b, env):
                 if e.attr == "_event_types":
                     return V("ETSet", "(e_types E)")
                 if e.attr in TS_READ and env.kind == "KPersistent":
@@ -824,13 +1225,15 @@ class Translator:
             self.fail(env, e, f"subscript `{ast.unparse(e)}`")
         if isinstance(e, ast.Call):
             return self.call_ex(e, env, x)
-        if isinstance(e, (ast.BoolOp, ast.UnaryOp, ast.Compare)):
+        if isinstance(e, (ast.BoolOp, ast.UnaryOp)):
             return self.cond(e, env, x)
+        if isinstance(e, ast.Compare):
+            return self.compare(e, env, x)
         self.fail(env, e, f"expression `{ast.unparse(e)[:70]}`")
 
     def is_self_simulator(self, b, env):
         """`self.simulator` (property returning self._simulator) or `self._simulator`"""
-        if not (isinstance(b, ast.Attribute) and isinstance(b.value, ast.Name) and b.value.id == "self"):
+        if not (isinstance(b, ast.Attribute) and self.is_selfname(b.value, env)):
             return False
         if b.attr == "_simulator":
             return True
@@ -928,10 +1331,7 @@ class Translator:
     def isinstance_(self, e, env, x) -> V:
         v = self.ex(e.args[0], env, x)
         t = e.args[1]
-        names = sorted(n.id for n in t.elts) if isinstance(t, ast.Tuple) and all(isinstance(n, ast.Name) for n in t.elts) \
-            else ([t.id] if isinstance(t, ast.Name) else None)
-        if names is None:
-            self.fail(env, e, f"isinstance class `{ast.unparse(t)}`")
+        names = self.names_of_classes(t, env, e)
         if v.ty == "Event" and names == ["Event"]:
             return V("Bool", f"(py_is_event {v.tx})", v.guards)
         if v.ty == "Event" and names == ["TimedEvent"]:
@@ -946,36 +1346,22 @@ class Translator:
             return V("Bool", f"(py_is_number {v.tx})", v.guards)
         self.fail(env, e, f"isinstance(`{ast.unparse(e.args[0])}` : {v.ty}, {ast.unparse(t)})")
 
-    def cond(self, e, env, x) -> V:
-        if isinstance(e, ast.UnaryOp) and isinstance(e.op, ast.Not):
-            c = self.cond(e.operand, env, x)
-            return V("Bool", f"(negb {c.tx})", c.guards)
-        if isinstance(e, ast.BoolOp):
-            cs = [self.cond(v, env, x) for v in e.values]
-            if any(c.guards for c in cs[1:]):
-                self.fail(env, e, "an operand of and / or that may raise")
-            op = " && " if isinstance(e.op, ast.And) else " || "
-            return V("Bool", "(" + op.join(c.tx for c in cs) + ")", cs[0].guards)
-        if isinstance(e, ast.Compare):
-            if len(e.ops) != 1:
-                self.fail(env, e, "chained comparison")
-            op, l, r = e.ops[0], self.ex(e.left, env, x), self.ex(e.comparators[0], env, x)
-            g = l.guards + r.guards
-            if isinstance(op, (ast.Eq, ast.NotEq)) and l.ty == "EType" and r.ty == "EType":
-                tx = f"(etype_eqb {l.tx} {r.tx})"
-            elif isinstance(op, (ast.Eq, ast.NotEq)) and l.ty == "Nat" and r.ty == "Nat":
-                tx = f"(Nat.eqb {l.tx} {r.tx})"
-            elif isinstance(op, (ast.In, ast.NotIn)) and l.ty == "EType" and r.ty == "ETSet":
-                tx = f"(et_in {l.tx} {r.tx})"
-            else:
-                self.fail(env, e, f"comparison `{ast.unparse(e)[:70]}` ({l.ty} vs {r.ty})")
-            if isinstance(op, (ast.NotEq, ast.NotIn)):
-                tx = f"(negb {tx})"
-            return V("Bool", tx, g)
-        v = self.ex(e, env, x)
-        if v.ty != "Bool":
-            self.fail(env, e, f"truth value of `{ast.unparse(e)[:60]}` ({v.ty})")
-        return v
+    def compare(self, e, env, x) -> V:
+        if len(e.ops) != 1:
+            self.fail(env, e, "chained comparison")
+        op, l, r = e.ops[0], self.ex(e.left, env, x), self.ex(e.comparators[0], env, x)
+        g = l.guards + r.guards
+        if isinstance(op, (ast.Eq, ast.NotEq, ast.Is, ast.IsNot)) and l.ty == "EType" and r.ty == "EType":
+            tx = f"(etype_eqb {l.tx} {r.tx})"           # event types are compared by identity
+        elif isinstance(op, (ast.Eq, ast.NotEq)) and l.ty == "Nat" and r.ty == "Nat":
+            tx = f"(Nat.eqb {l.tx} {r.tx})"
+        elif isinstance(op, (ast.In, ast.NotIn)) and l.ty == "EType" and r.ty == "ETSet":
+            tx = f"(et_in {l.tx} {r.tx})"
+        else:
+            self.fail(env, e, f"comparison `{ast.unparse(e)[:70]}` ({l.ty} vs {r.ty})")
+        if isinstance(op, (ast.NotEq, ast.NotIn, ast.IsNot)):
+            tx = f"(negb {tx})"
+        return V("Bool", tx, g)
 
     # ====================================================================== constructors, listen_to
     def ctor_method(self, C, O, m):
@@ -986,7 +1372,7 @@ class Translator:
             raise Unsupported(file, fn, f"signature of {O}.{m}")
         pos = [x.arg for x in a.args[1:]]
         kwo = [x.arg for x in a.kwonlyargs]
-        env = Env(C, O, kind, file)
+        env = Env(C, O, kind, file, "ctor")
         if m == "__init__" and len(pos) == 3 and len(kwo) == 2 and not a.defaults:
             if not all(isinstance(d, ast.Constant) and d.value is None for d in a.kw_defaults):
                 raise Unsupported(file, fn, f"{O}.__init__: producer / event_type must default to None")
@@ -1006,68 +1392,73 @@ class Translator:
         body = strip_doc(fn.body)
         if not body:
             raise Unsupported(file, fn, "empty body")
-        tx = self.cseq(body, env, "c")
+        tx = self.seq(body, env, "c")
         params = "".join(f" (p_{p} : {GTYPE[t]})" for p, t in zip(ps, types))
         head = f"(* {O}.{m} for an object of class {C}  -- {REL[file]} lines {fn.lineno}-{fn.end_lineno} *)\n"
         text = head + f"Definition {name} (self : nat) (c : cobj){params} : cres :=\n" + ind(tx) + "."
-        return name, text, self.record(C, O, m, name, file, fn)
-
-    def cseq(self, stmts, env, c):
-        if not stmts:
-            return f"COk {c}"
-        s, rest = stmts[0], stmts[1:]
-        if isinstance(s, ast.Pass):
-            return self.cseq(rest, env, c)
-        if isinstance(s, ast.Raise):
-            nm = self.check_raise(s, env)
-            if nm not in RAISES:
-                self.fail(env, s, f"raise {nm} in a constructor")
-            if rest:
-                self.fail(env, rest[0], "statement after raise")
-            return f"CExn {RAISES[nm]} {c}"
-        if isinstance(s, ast.If):
-            ct = self.ccond(s.test, env)
-            if not s.orelse and self.always_raises(s.body) and rest:
-                return f"if {ct} then\n{ind(self.cseq(s.body, env, c))}\nelse\n{ind(self.cseq(rest, env, c))}"
-            a = self.cseq(s.body, env, c)
-            b = self.cseq(s.orelse, env, c)
-            both = f"if {ct} then\n{ind(a)}\nelse\n{ind(b)}"
-            if not rest:
-                return both
-            c1 = env.fresh("c")
-            return f"c_then ({both}) (fun {c1} =>\n{self.cseq(rest, env, c1)})"
-        kind, tx = self.cstmt(s, env, c)
-        if kind == "none":
-            return self.cseq(rest, env, c)
-        c1 = env.fresh("c")
-        if kind == "pure":
-            return f"let {c1} := {tx} in\n{self.cseq(rest, env, c1)}"
-        if not rest:
-            return tx
-        return f"c_then ({tx}) (fun {c1} =>\n{self.cseq(rest, env, c1)})"
+        return name, text, self.record(C, O, m, name, file, fn, env)
 
     def param(self, e, env, ty):
-        if isinstance(e, ast.Name) and e.id in env.vars and env.vars[e.id].ty == ty:
-            return env.vars[e.id].tx
-        return None
+        """the text of e when it is a value of universe ty (a parameter, or a local / helper parameter bound to one)"""
+        try:
+            v = self.ex(e, env, None)
+        except Unsupported:
+            return None
+        return v.tx if (v.ty == ty and not v.guards) else None
 
     def cetype(self, e, env):
         """an event type: a constant of StatEvents / ReplicationInterface / SimulatorInterface or the event_type parameter"""
-        if isinstance(e, ast.Attribute) and isinstance(e.value, ast.Name) and (e.value.id, e.attr) in ETYPES:
-            return ETYPES[(e.value.id, e.attr)]
-        p = self.param(e, env, "EtArg")
-        if p:
-            return f"(py_et {p})"
+        v = self.ex(e, env, None)
+        if v.ty == "EType":
+            return v.tx
+        if v.ty == "EtArg":
+            return f"(py_et {v.tx})"
         self.fail(env, e, f"event type `{ast.unparse(e)}`")
 
-    def is_self(self, e):
-        return isinstance(e, ast.Name) and e.id == "self"
+    def is_self(self, e, env):
+        return self.is_selfname(e, env)
+
+    def cex(self, e, env, st) -> V:
+        if isinstance(e, ast.Name):
+            if e.id == "self":
+                return V("Self", "self")
+            self.fail(env, e, f"name `{e.id}`")
+        if isinstance(e, ast.Attribute):
+            if isinstance(e.value, ast.Name) and (e.value.id, e.attr) in ETYPES:
+                return V("EType", ETYPES[(e.value.id, e.attr)])
+            if e.attr == "model":
+                p = self.param(e.value, env, "SimArg")
+                if p:
+                    return V("SimModel", p)
+            self.fail(env, e, f"attribute `{ast.unparse(e)}`")
+        if isinstance(e, ast.Call) and isinstance(e.func, ast.Name) and e.func.id == "isinstance" and len(e.args) == 2 and not e.keywords:
+            names = self.names_of_classes(e.args[1], env, e)
+            v = self.ex(e.args[0], env, st)
+            for ty, cls, fn_ in (("Key", "str", "py_key_is_str"), ("SimArg", "SimulatorInterface", "py_is_simulator"),
+                                 ("ProdArg", "EventProducer", "py_is_producer"), ("EtArg", "EventType", "py_is_event_type")):
+                if v.ty == ty and names == [cls]:
+                    return V("Bool", f"({fn_} {v.tx})")
+            self.fail(env, e, f"isinstance test `{ast.unparse(e)}`")
+        if isinstance(e, ast.Compare) and len(e.ops) == 1 and isinstance(e.ops[0], (ast.Eq, ast.NotEq, ast.Is, ast.IsNot)):
+            l, r = self.ex(e.left, env, st), self.ex(e.comparators[0], env, st)
+            if l.ty == "None":
+                l, r = r, l
+            tx = None
+            if r.ty == "None":
+                tx = {"ProdArg": f"(py_prod_is_none {l.tx})", "EtArg": f"(py_et_is_none {l.tx})",
+                      "SimModel": f"(negb (py_sim_has_model {l.tx}))"}.get(l.ty)
+            if tx is None:
+                self.fail(env, e, f"comparison `{ast.unparse(e)}` ({l.ty} vs {r.ty})")
+            return V("Bool", f"(negb {tx})" if isinstance(e.ops[0], (ast.NotEq, ast.IsNot)) else tx)
+        if isinstance(e, (ast.BoolOp, ast.UnaryOp)):
+            return self.cond(e, env, st)
+        self.fail(env, e, f"expression `{ast.unparse(e)[:70]}`")
 
     def cstmt(self, s, env, c):
         """('none' | 'pure' | 'res', text): no effect on the tables / a new cobj / a cres"""
         if isinstance(s, (ast.Assign, ast.AnnAssign)):
             tg = s.targets[0] if isinstance(s, ast.Assign) and len(s.targets) == 1 else (s.target if isinstance(s, ast.AnnAssign) else None)
-            if s.value is None or not (isinstance(tg, ast.Attribute) and self.is_self(tg.value)):
+            if s.value is None or not (isinstance(tg, ast.Attribute) and self.is_self(tg.value, env)):
                 self.fail(env, s, f"assignment `{ast.unparse(s)[:70]}`")
             if tg.attr == "_simulator" and self.param(s.value, env, "SimArg"):
                 return "none", ""
@@ -1087,19 +1478,24 @@ class Translator:
             self.fail(env, call, f"call `{ast.unparse(call)[:70]}`")
         b, m, args = f.value, f.attr, list(call.args)
         # simulator.add_listener(X, self) / producer.add_listener(et, self)
-        if m == "add_listener" and len(args) == 2 and self.is_self(args[1]):
+        if m == "add_listener" and len(args) == 2 and self.is_self(args[1], env):
             if self.param(b, env, "SimArg"):
                 return "pure", f"py_sim_add_listener {self.cetype(args[0], env)} self {c}"
             if self.param(b, env, "ProdArg"):
                 return "pure", f"py_prod_add_listener {self.cetype(args[0], env)} self {c}"
         # self._event_types.add(et)
-        if m == "add" and len(args) == 1 and isinstance(b, ast.Attribute) and self.is_self(b.value) and b.attr == "_event_types":
+        if m == "add" and len(args) == 1 and isinstance(b, ast.Attribute) and self.is_self(b.value, env) and b.attr == "_event_types":
             return "pure", f"py_types_add {self.cetype(args[0], env)} {c}"
         # simulator.model.add_output_statistic(key, self)
-        if m == "add_output_statistic" and isinstance(b, ast.Attribute) and b.attr == "model" and self.param(b.value, env, "SimArg") \
-                and len(args) == 2 and self.param(args[0], env, "Key") and self.is_self(args[1]):
-            name = self.define("DSOLModel", "DSOLModel", "add_output_statistic", at=call, file=env.file)
-            return "res", f"py_on_model ({name} (co_dict {c}) (py_key_str {self.param(args[0], env, 'Key')}) (StatObj self)) {c}"
+        if m == "add_output_statistic" and len(args) == 2 and self.param(args[0], env, "Key") and self.is_self(args[1], env):
+            mv = None
+            try:
+                mv = self.ex(b, env, c)
+            except Unsupported:
+                pass
+            if mv is not None and mv.ty == "SimModel":
+                name = self.define("DSOLModel", "DSOLModel", "add_output_statistic", at=call, file=env.file)
+                return "res", f"py_on_model ({name} (co_dict {c}) (py_key_str {self.param(args[0], env, 'Key')}) (StatObj self)) {c}"
         how, O, mm, cargs = self.resolve_call(call, env)
         if how in ("super", "parent") and mm == "__init__":
             if O == "EventProducer":
@@ -1123,104 +1519,103 @@ class Translator:
             return "res", f"{name} self {c} {self.param(cargs[0], env, 'ProdArg')} {self.param(cargs[1], env, 'EtArg')}"
         self.fail(env, call, f"call `{ast.unparse(call)[:70]}`")
 
-    def ccond(self, e, env):
-        if isinstance(e, ast.UnaryOp) and isinstance(e.op, ast.Not):
-            return f"(negb {self.ccond(e.operand, env)})"
-        if isinstance(e, ast.BoolOp):
-            op = " && " if isinstance(e.op, ast.And) else " || "
-            return "(" + op.join(self.ccond(v, env) for v in e.values) + ")"
-        if isinstance(e, ast.Call) and isinstance(e.func, ast.Name) and e.func.id == "isinstance" and len(e.args) == 2 \
-                and isinstance(e.args[1], ast.Name) and not e.keywords:
-            t = e.args[1].id
-            for ty, cls, fn_ in (("Key", "str", "py_key_is_str"), ("SimArg", "SimulatorInterface", "py_is_simulator"),
-                                 ("ProdArg", "EventProducer", "py_is_producer"), ("EtArg", "EventType", "py_is_event_type")):
-                p = self.param(e.args[0], env, ty)
-                if p and t == cls:
-                    return f"({fn_} {p})"
-            self.fail(env, e, f"isinstance test `{ast.unparse(e)}`")
-        if isinstance(e, ast.Compare) and len(e.ops) == 1 and isinstance(e.comparators[0], ast.Constant) \
-                and e.comparators[0].value is None and isinstance(e.ops[0], (ast.Eq, ast.NotEq, ast.Is, ast.IsNot)):
-            l = e.left
-            tx = None
-            if self.param(l, env, "ProdArg"):
-                tx = f"(py_prod_is_none {self.param(l, env, 'ProdArg')})"
-            elif self.param(l, env, "EtArg"):
-                tx = f"(py_et_is_none {self.param(l, env, 'EtArg')})"
-            elif isinstance(l, ast.Attribute) and l.attr == "model" and self.param(l.value, env, "SimArg"):
-                tx = f"(negb (py_sim_has_model {self.param(l.value, env, 'SimArg')}))"
-            if tx is None:
-                self.fail(env, e, f"comparison with None: `{ast.unparse(e)}`")
-            return f"(negb {tx})" if isinstance(e.ops[0], (ast.NotEq, ast.IsNot)) else tx
-        self.fail(env, e, f"condition `{ast.unparse(e)[:70]}`")
-
     # ====================================================================== DSOLModel, Simulator.initialize
     IGNORED_MODEL_ATTRS = {"_simulator": "the simulator of the model", "_input_parameters": "the input parameters (C18)"}
+    D = "_output_statistics"
+
+    def is_d(self, e, env):
+        return isinstance(e, ast.Attribute) and self.is_selfname(e.value, env) and e.attr == self.D
+
+    def dex(self, e, env, d) -> V:
+        if isinstance(e, ast.Name):
+            if e.id == "self":
+                return V("Self", "self")
+            self.fail(env, e, f"name `{e.id}`")
+        if self.is_d(e, env):
+            return V("Dict", d)
+        if isinstance(e, ast.Call) and isinstance(e.func, ast.Name) and e.func.id == "isinstance" and len(e.args) == 2 and not e.keywords:
+            names = self.names_of_classes(e.args[1], env, e)
+            v = self.ex(e.args[0], env, d)
+            if v.ty == "Stat" and names == ["StatisticsInterface"]:
+                return V("Bool", f"(py_is_statistic {v.tx})")
+            if v.ty == "SimArg" and names == ["SimulatorInterface"]:
+                return V("Bool", f"(py_is_simulator {v.tx})")
+            self.fail(env, e, f"isinstance test `{ast.unparse(e)}`")
+        if isinstance(e, ast.Compare) and len(e.ops) == 1 and isinstance(e.ops[0], (ast.In, ast.NotIn)):
+            l, r = self.ex(e.left, env, d), self.ex(e.comparators[0], env, d)
+            if l.ty == "DKey" and r.ty == "Dict":
+                tx = f"(py_dict_has {r.tx} {l.tx})"
+                return V("Bool", f"(negb {tx})" if isinstance(e.ops[0], ast.NotIn) else tx)
+            self.fail(env, e, f"membership test `{ast.unparse(e)}` ({l.ty} in {r.ty})")
+        if isinstance(e, (ast.BoolOp, ast.UnaryOp)):
+            return self.cond(e, env, d)
+        self.fail(env, e, f"expression `{ast.unparse(e)[:70]}`")
+
+    def dstmt(self, s, env, d):
+        if isinstance(s, (ast.Assign, ast.AnnAssign)):
+            tg = s.targets[0] if isinstance(s, ast.Assign) and len(s.targets) == 1 else getattr(s, "target", None)
+            if s.value is not None and isinstance(tg, ast.Subscript) and self.is_d(tg.value, env):
+                k, v = self.ex(tg.slice, env, d), self.ex(s.value, env, d)
+                if k.ty == "DKey" and v.ty == "Stat":
+                    return "pure", f"py_dict_set {d} {k.tx} (py_stat_id {v.tx})"
+                self.fail(env, s, f"dictionary entry `{ast.unparse(s)[:60]}` ({k.ty} -> {v.ty})")
+            if s.value is not None and isinstance(tg, ast.Attribute) and self.is_selfname(tg.value, env):
+                if tg.attr == self.D and getattr(env, "method", None) == "__init__":
+                    v = s.value
+                    empty = (isinstance(v, ast.Dict) and not v.keys) or \
+                            (isinstance(v, ast.Call) and isinstance(v.func, ast.Name) and v.func.id == "dict"
+                             and not v.args and not v.keywords)
+                    if not empty:
+                        self.fail(env, s, f"initial value of self.{self.D}: `{ast.unparse(v)}`")
+                    env.found_dict = True
+                    return "pure", "(@nil (nat * nat))"
+                if tg.attr in self.IGNORED_MODEL_ATTRS and getattr(env, "method", None) == "__init__" and self.D not in ast.unparse(s.value):
+                    return "none", ""
+        self.fail(env, s, f"statement `{ast.unparse(s)[:70]}`")
 
     def dict_method(self, O, m):
         if O == "Simulator":
             return self.sim_initialize()
         file, fn = self.fn_node(O, m, "model")
-        env = Env(O, O, None, file)
         a = fn.args
         pos = [x.arg for x in a.args[1:]]
         if a.vararg or a.posonlyargs or a.kwonlyargs or a.defaults or not a.args or a.args[0].arg != "self" \
                 or (a.kwarg and m != "__init__"):
             raise Unsupported(file, fn, f"signature of {O}.{m}")
-        decos = [ast.unparse(d) for d in fn.decorator_list]
-        if decos:
+        if fn.decorator_list:
             raise Unsupported(file, fn, f"decorator on {O}.{m}")
         name = f"gen_{O}_{m}"
         body = strip_doc(fn.body)
-        D = "_output_statistics"
         head = f"(* {O}.{m}  -- {REL[file]} lines {fn.lineno}-{fn.end_lineno} *)\n"
-
-        def is_d(e):
-            return isinstance(e, ast.Attribute) and self.is_self(e.value) and e.attr == D
-
+        env = Env(O, O, None, file, "dict")
+        env.method = m
         if m == "__init__":
             if pos != ["simulator"]:
                 raise Unsupported(file, fn, f"parameters of {O}.__init__: {pos}")
             env.vars["simulator"] = V("SimArg", "p_simulator")
-            found = [False]
-
-            def seq(stmts, d):
-                if not stmts:
-                    return f"DOk {d}"
-                s, rest = stmts[0], stmts[1:]
-                if isinstance(s, ast.If) and not s.orelse and self.always_raises(s.body) and len(s.body) == 1:
-                    nm = self.check_raise(s.body[0], env)
-                    if nm not in RAISES:
-                        self.fail(env, s, f"raise {nm}")
-                    return f"if {self.ccond(s.test, env)} then DExn {RAISES[nm]} {d} else\n{seq(rest, d)}"
-                if isinstance(s, (ast.Assign, ast.AnnAssign)):
-                    tg = s.targets[0] if isinstance(s, ast.Assign) and len(s.targets) == 1 else getattr(s, "target", None)
-                    if isinstance(tg, ast.Attribute) and self.is_self(tg.value) and s.value is not None:
-                        if tg.attr == D:
-                            v = s.value
-                            empty = (isinstance(v, ast.Dict) and not v.keys) or \
-                                    (isinstance(v, ast.Call) and isinstance(v.func, ast.Name) and v.func.id == "dict"
-                                     and not v.args and not v.keywords)
-                            if not empty:
-                                self.fail(env, s, f"initial value of self.{D}: `{ast.unparse(v)}`")
-                            found[0] = True
-                            return f"let d_new := [] in\n{seq(rest, 'd_new')}"
-                        if tg.attr in self.IGNORED_MODEL_ATTRS and D not in ast.unparse(s.value):
-                            return seq(rest, d)
-                self.fail(env, s, f"statement `{ast.unparse(s)[:70]}`")
-            tx = seq(body, "d")
-            if not found[0]:
-                raise Unsupported(file, fn, f"{O}.__init__ does not create self.{D}")
+            env.found_dict = False
+            tx = self.seq(body, env, "d")
+            if not env.found_dict:
+                raise Unsupported(file, fn, f"{O}.__init__ does not create self.{self.D}")
             text = head + f"Definition {name} (d : registry) (p_simulator : pysim) : dres :=\n" + ind(tx) + "."
+        elif m == "add_output_statistic":
+            if len(pos) != 2:
+                raise Unsupported(file, fn, f"parameters of {O}.add_output_statistic: {pos}")
+            k, st = pos
+            env.vars[k] = V("DKey", f"p_{k}")
+            env.vars[st] = V("Stat", f"p_{st}")
+            tx = self.seq(body, env, "d")
+            text = head + f"Definition {name} (d : registry) (p_{k} : nat) (p_{st} : pystat) : dres :=\n" + ind(tx) + "."
         elif m == "output_statistics":
             if pos or len(body) != 1 or not isinstance(body[0], ast.Return) or body[0].value is None:
                 raise Unsupported(file, fn, f"{O}.output_statistics must be a single return")
             v = body[0].value
-            if is_d(v):
+            if self.is_d(v, env):
                 tx = "DSelf"
             elif (isinstance(v, ast.Call) and isinstance(v.func, ast.Name) and v.func.id == "dict" and len(v.args) == 1
-                  and is_d(v.args[0]) and not v.keywords) or \
+                  and self.is_d(v.args[0], env) and not v.keywords) or \
                     (isinstance(v, ast.Call) and isinstance(v.func, ast.Attribute) and v.func.attr == "copy"
-                     and is_d(v.func.value) and not v.args and not v.keywords):
+                     and self.is_d(v.func.value, env) and not v.args and not v.keywords):
                 tx = "DCopy d"
             else:
                 self.fail(env, v, f"value returned by output_statistics: `{ast.unparse(v)}`")
@@ -1229,49 +1624,12 @@ class Translator:
             if len(pos) != 1 or len(body) != 1 or not isinstance(body[0], ast.Return) or body[0].value is None:
                 raise Unsupported(file, fn, f"{O}.get_output_statistic must be a single return")
             v = body[0].value
-            if not (isinstance(v, ast.Subscript) and is_d(v.value) and isinstance(v.slice, ast.Name) and v.slice.id == pos[0]):
+            if not (isinstance(v, ast.Subscript) and self.is_d(v.value, env) and isinstance(v.slice, ast.Name) and v.slice.id == pos[0]):
                 self.fail(env, v, f"value returned by get_output_statistic: `{ast.unparse(v)}`")
             text = head + f"Definition {name} (d : registry) (p_{pos[0]} : nat) : option nat :=\n  py_dict_getitem d p_{pos[0]}."
-        elif m == "add_output_statistic":
-            if len(pos) != 2:
-                raise Unsupported(file, fn, f"parameters of {O}.add_output_statistic: {pos}")
-            k, st = pos
-
-            def dcond(e):
-                if isinstance(e, ast.UnaryOp) and isinstance(e.op, ast.Not):
-                    return f"(negb {dcond(e.operand)})"
-                if isinstance(e, ast.Compare) and len(e.ops) == 1 and isinstance(e.ops[0], (ast.In, ast.NotIn)) \
-                        and isinstance(e.left, ast.Name) and e.left.id == k and is_d(e.comparators[0]):
-                    tx = f"(py_dict_has {{d}} p_{k})"
-                    return f"(negb {tx})" if isinstance(e.ops[0], ast.NotIn) else tx
-                if isinstance(e, ast.Call) and isinstance(e.func, ast.Name) and e.func.id == "isinstance" and len(e.args) == 2 \
-                        and isinstance(e.args[0], ast.Name) and e.args[0].id == st and isinstance(e.args[1], ast.Name) \
-                        and e.args[1].id == "StatisticsInterface":
-                    return f"(py_is_statistic p_{st})"
-                self.fail(env, e, f"condition `{ast.unparse(e)[:70]}`")
-
-            cnt = [0]
-
-            def seq(stmts, d):
-                if not stmts:
-                    return f"DOk {d}"
-                s, rest = stmts[0], stmts[1:]
-                if isinstance(s, ast.If) and not s.orelse and self.always_raises(s.body) and len(s.body) == 1:
-                    nm = self.check_raise(s.body[0], env)
-                    if nm not in RAISES:
-                        self.fail(env, s, f"raise {nm}")
-                    return f"if {dcond(s.test).format(d=d)} then DExn {RAISES[nm]} {d} else\n{seq(rest, d)}"
-                if isinstance(s, ast.Assign) and len(s.targets) == 1 and isinstance(s.targets[0], ast.Subscript) \
-                        and is_d(s.targets[0].value) and isinstance(s.targets[0].slice, ast.Name) and s.targets[0].slice.id == k \
-                        and isinstance(s.value, ast.Name) and s.value.id == st:
-                    cnt[0] += 1
-                    d1 = f"d_{cnt[0]}"
-                    return f"let {d1} := py_dict_set {d} p_{k} (py_stat_id p_{st}) in\n{seq(rest, d1)}"
-                self.fail(env, s, f"statement `{ast.unparse(s)[:70]}`")
-            text = head + f"Definition {name} (d : registry) (p_{k} : nat) (p_{st} : pystat) : dres :=\n" + ind(seq(body, "d")) + "."
         else:
             raise Unsupported(file, fn, f"{O}.{m} is not translated")
-        return name, text, self.record(O, O, m, name, file, fn)
+        return name, text, self.record(O, O, m, name, file, fn, env)
 
     def sim_initialize(self):
         """of Simulator.initialize: the statements about the model's statistics, in their order"""
@@ -1281,7 +1639,7 @@ class Translator:
         if ps[:2] != ["self", "model"] or a.vararg or a.kwarg or a.kwonlyargs:
             raise Unsupported(file, fn, f"parameters of Simulator.initialize: {ps}")
         out_name = self.define("DSOLModel", "DSOLModel", "output_statistics", at=fn, file=file)
-        env = Env("Simulator", "Simulator", None, file)
+        env = Env("Simulator", "Simulator", None, file, "dict")
         words = ("output_statistics", "_output_statistics", "add_output_statistic", "construct_model")
         lines, cur, after, n, seen_clear = [], "d", False, 0, False
         for s in strip_doc(fn.body):
@@ -1314,6 +1672,8 @@ class Translator:
                 f"{fn.lineno}-{fn.end_lineno} *)\n")
         text = head + f"Definition {name} (construct_model : registry -> cres) (d : registry) : cres :=\n" + ind(tx) + "."
         return name, text, self.record("Simulator", "Simulator", "initialize", name, file, fn)
+
+
 
 
 # ---------------------------------------------------------------------------------------------- driver
